@@ -449,6 +449,12 @@ def run(case, ctx):
         ctx.violate(f"C20/html-raise:{out.type}@{out.where}", f"write_tree_html raised {out!r}")
     else:
         ctx.count("html-rendered")
+        # rendering is a read: the same tree rendered again, and a tree produced again after rendering, give the same text
+        ok_r2, out_r2 = call(write_tree_html, tree, anchor_root=anchor)
+        ok_t2, tree2 = call(schema.to_tree, nested=True, **kw)
+        ok_r3, out_r3 = call(write_tree_html, tree2, anchor_root=anchor) if ok_t2 else (False, None)
+        if not ok_r2 or out_r2 != out or (ok_t2 and (not ok_r3 or out_r3 != out)):
+            ctx.violate("C20/html:not-repeatable", "rendering the tree a second time (or rendering a second tree of the same schema) gives other text")
         if not isinstance(out, str):
             ctx.violate("C20/html:not-str", f"{type(out).__name__}")
         else:
